@@ -10,7 +10,7 @@ for p in $here/$glob; do
   git -C /repo worktree remove --force $wt >/dev/null 2>&1
   git -C /repo worktree add --detach $wt $branch >/dev/null 2>&1 || { echo "$n: worktree failed"; continue; }
   if git -C $wt apply $p; then
-    out=$(cd /verif && VERIF_REPO=$wt VERIF_SEED=${VERIF_SEED:-0} bin/check C01 $tier 2>&1); rc=$?
+    out=$(cd /verif && VERIF_NOEVIDENCE=1 VERIF_REPO=$wt VERIF_SEED=${VERIF_SEED:-0} bin/check C01 $tier 2>&1); rc=$?
     echo "== $n exit=$rc"
     echo "$out" | grep -E "^  key=|INCONCLUSIVE|KNOWN" | cut -c1-200 | head -8
   else
